@@ -19,6 +19,7 @@ EXPLANATION = (
     "argued on paper, not mechanised.")
 EXPLANATION_ADDED = '(R7) after a successful credit take every success path of the caller builds a Push (no credit without a frame).'
 EXPLANATION = EXPLANATION + " Added while testing against seeded changes: " + EXPLANATION_ADDED
+EXPLANATION = EXPLANATION + ' Rounds 12-13: R3 also requires the initial credit to be the advertised window itself (moves / conversions only, no min / max / arithmetic); R4 likewise for the inbound queue capacity, the windows advertised in Connect / the handshake Acknowledge and the rwnd fields.'
 ASSUMPTIONS = [
     "tokio mpsc channels are FIFO and bounded as documented; atomic RMW operations are atomic",
     "the two endpoints run the same code (conforming peer)",
